@@ -374,10 +374,17 @@ pub fn eval(expr: Node) -> Result<Decimal, Box<dyn error::Error>> {
             let n = eval(*expr1)?;
             iterated_log(n, eval(*expr2)?)
         }
-        Sqrt(sub_expr) => match eval(*sub_expr)?.sqrt() {
-            Some(result) => Ok(result),
-            None => Err("Unable to compute the square root of negative number".into()),
-        },
+        Sqrt(sub_expr) => {
+            let x = eval(*sub_expr)?;
+            // a zero with the sign bit set (ceil(-0.7), -0.0) is zero, not a negative number
+            if x.is_zero() {
+                return Ok(Decimal::ZERO);
+            }
+            match x.sqrt() {
+                Some(result) => Ok(result),
+                None => Err("Unable to compute the square root of negative number".into()),
+            }
+        }
         Root(n_th_expr, x_expr) => {
             let exponent = Decimal::new(1, 0)
                 .checked_div(eval(*n_th_expr)?)
